@@ -74,8 +74,19 @@ def main():
             mods = sorted({f.split("/")[0] if not f.startswith(("x/go", "freighter/go", "arc/go", "alamos/go")) else "/".join(f.split("/")[:2]) for f in meta.get("files", [])})
             ok = True
             for mod in mods:
-                rs = sh("go test -vet=off -count=1 ./... 2>&1 | tail -40", cwd=os.path.join(wt, mod), timeout=3000)
-                if "FAIL" in rs.stdout:
+                rs = sh("go test -vet=off -count=1 ./... 2>&1", cwd=os.path.join(wt, mod), timeout=3000)
+                failed = sorted(set(re.findall(r"^FAIL\s+(\S+)", rs.stdout, re.M)))
+                if failed:
+                    # the repository has a few timing-dependent packages: a package only counts as
+                    # failing with the change when it fails twice in a row on its own
+                    verdict.setdefault("suite_first_run_failures", []).extend(failed)
+                    rs2 = sh("go test -vet=off -count=1 %s 2>&1" % " ".join(failed), cwd=os.path.join(wt, mod), timeout=3000)
+                    failed2 = sorted(set(re.findall(r"^FAIL\s+(\S+)", rs2.stdout, re.M)))
+                    if failed2:
+                        ok = False
+                        verdict.setdefault("suite_failures", []).extend(failed2)
+                        print(rs2.stdout[-1500:])
+                elif "FAIL" in rs.stdout or rs.returncode != 0:
                     ok = False
                     print(rs.stdout[-1500:])
             verdict["existing_suite_passes_with_change"] = ok
